@@ -69,35 +69,57 @@ func zzOpenApp(dir string) *RigoApp {
 	return app
 }
 
-// zzNewNode creates an application and runs Info + InitChain: holders
-// A0..A(nholders-1) with symbolic balances, validators A0..A(nvals-1) with
-// symbolic power, symbolic governance parameters (A-GOV).
-func zzNewNode(nholders, nvals int, gov *ctrlertypes.GovParams) *zzNode {
+// zzGenesis holds the (symbolic) genesis values so that several replicas can
+// be started from the same symbols.
+type zzGenesis struct {
+	balances []*uint256.Int
+	powers   []int64
+	gov      *ctrlertypes.GovParams
+}
+
+func zzNewGenesis(nholders, nvals int, gov *ctrlertypes.GovParams) *zzGenesis {
 	for _, k := range zzKeyTab {
 		zzverif.RegisterKey(k.priv, zzUnhex(k.addr), zzUnhex(k.pub))
 	}
-	n := &zzNode{dir: zzverif.TempDir(), gov: gov, nvals: nvals}
+	g := &zzGenesis{gov: gov}
+	for i := 0; i < nholders; i++ {
+		g.balances = append(g.balances, zzverif.NondetU256Below("genesis.balance", zzMaxBalance()))
+	}
+	for i := 0; i < nvals; i++ {
+		g.powers = append(g.powers, zzverif.NondetI64In("genesis.power", 1, zzMaxPower))
+	}
+	return g
+}
+
+// start creates an application in a fresh directory and runs Info + InitChain.
+func (g *zzGenesis) start() *zzNode {
+	n := &zzNode{dir: zzverif.TempDir(), gov: g.gov, nvals: len(g.powers)}
 	n.app = zzOpenApp(n.dir)
 	info := n.app.Info(abcitypes.RequestInfo{})
 	if info.LastBlockHeight != 0 {
 		panic("fresh application reports a height")
 	}
 	var holders []*genesis.GenesisAssetHolder
-	for i := 0; i < nholders; i++ {
-		holders = append(holders, &genesis.GenesisAssetHolder{Address: zzAddr(i), Balance: zzverif.NondetU256Below("genesis.balance", zzMaxBalance())})
+	for i, b := range g.balances {
+		holders = append(holders, &genesis.GenesisAssetHolder{Address: zzAddr(i), Balance: b.Clone()})
 	}
-	st := genesis.GenesisAppState{AssetHolders: holders, GovParams: gov}
+	st := genesis.GenesisAppState{AssetHolders: holders, GovParams: g.gov}
 	bz, err := tmjson.Marshal(st)
 	if err != nil {
 		panic(err)
 	}
 	var vals []abcitypes.ValidatorUpdate
-	for i := 0; i < nvals; i++ {
-		vals = append(vals, abcitypes.ValidatorUpdate{PubKey: tmcrypto.PublicKey{Sum: &tmcrypto.PublicKey_Secp256K1{Secp256K1: zzPub(i)}},
-			Power: zzverif.NondetI64In("genesis.power", 1, zzMaxPower)})
+	for i, p := range g.powers {
+		vals = append(vals, abcitypes.ValidatorUpdate{PubKey: tmcrypto.PublicKey{Sum: &tmcrypto.PublicKey_Secp256K1{Secp256K1: zzPub(i)}}, Power: p})
 	}
 	n.app.InitChain(abcitypes.RequestInitChain{ChainId: zzChainID, AppStateBytes: bz, Validators: vals})
 	return n
+}
+
+// zzNewNode: holders A0..A(nholders-1) with symbolic balances, validators
+// A0..A(nvals-1) with symbolic power, symbolic governance parameters (A-GOV).
+func zzNewNode(nholders, nvals int, gov *ctrlertypes.GovParams) *zzNode {
+	return zzNewGenesis(nholders, nvals, gov).start()
 }
 
 const zzMaxPower = int64(1) << 55
